@@ -840,6 +840,9 @@ func gitHostile(c *Ctx, op string) {
 		{"mode-100600", sub([3]string{"100600", "odd", blob}), [][3]string{{"odd", "r", "payload\n"}}},
 		{"mode-100775", sub([3]string{"100775", "m775", blob}), [][3]string{{"m775", "X", "payload\n"}}},
 		{"mode-100640", sub([3]string{"100640", "m640", blob}), [][3]string{{"m640", "r", "payload\n"}}},
+		{"mode-100611", sub([3]string{"100611", "m611", blob}), [][3]string{{"m611", "r", "payload\n"}}},
+		{"mode-100654", sub([3]string{"100654", "m654", blob}, [3]string{"100700", "m700", blob}), [][3]string{{"m654", "r", "payload\n"}, {"m700", "X", "payload\n"}}},
+		{"mode-100710", sub([3]string{"100710", "m710", blob}, [3]string{"100601", "m601", blob}), [][3]string{{"m601", "r", "payload\n"}, {"m710", "X", "payload\n"}}},
 		{"mode-0", sub([3]string{"0", "zero", blob}), [][3]string{{"zero", "?", "payload\n"}}},
 		{"mode-100777", sub([3]string{"100644", "a", blob}, [3]string{"100777", "b", blob}), [][3]string{{"a", "f", "payload\n"}, {"b", "X", "payload\n"}}},
 		{"abs-name", sub([3]string{"100644", "/abs", blob}), [][3]string{{"/abs", "f", "payload\n"}}},
@@ -899,6 +902,26 @@ func gitHostile(c *Ctx, op string) {
 			}
 		default:
 			res = listing(dst)
+			if strings.HasPrefix(hc.name, "mode-100") {
+				// git's own rule, from the tree object alone: a regular file is executable iff its owner-execute bit is set
+				if raw, e := gitCmd(repo, "cat-file", "-p", hc.tree); e == nil {
+					for _, ln := range strings.Split(strings.TrimSpace(raw), "\n") {
+						f := strings.Fields(ln)
+						if len(f) < 4 || f[1] != "blob" {
+							continue
+						}
+						var m uint32
+						fmt.Sscanf(f[0], "%o", &m)
+						want := os.FileMode(0644)
+						if m&0100 != 0 {
+							want = 0755
+						}
+						if st, e := os.Lstat(filepath.Join(dst, f[3])); e == nil && st.Mode().Perm() != want {
+							c.PropFail("git-mode", fmt.Sprintf("tree entry %s with mode %s is delivered with permissions %o; git yields %o (owner-execute bit alone decides)", f[3], f[0], st.Mode().Perm(), want), sop)
+						}
+					}
+				}
+			}
 		}
 		// nothing outside the destination
 		if sibs, _ := os.ReadDir(filepath.Dir(dst)); len(sibs) > 1 {
